@@ -13,7 +13,8 @@ RULE = ("cases = matrices/polynomials/vector pairs enumerated by TLC (all 2x2 in
         "incl. singular of every rank, all root multisets, all lattice vector pairs); non-trivial = singular matrix, "
         "multiple/complex roots, zero or proportional vectors; each matrix is evaluated on both sides of the batch-size "
         "thresholds, in int/float/complex dtype")
-INVS = ["DetIsLeibniz", "AdjIsClassical", "CodeFormulas", "RankSound", "RootsAreRoots", "IsMultLaws", "HatIsCross"]
+INVS = ["DetIsLeibniz", "AdjIsClassical", "CodeFormulas", "RankSound", "RootsAreRoots", "VietaOnChosenRoots",
+        "DiscriminantOnChosenRoots", "DiscriminantSound", "IsMultLaws", "HatIsCross"]
 TOL = 1e-6
 
 BATCHES = [(1,), (2,), (63,), (64,), (65,), (200,), (8, 8), (3, 21), (2, 32), (2, 3)]
@@ -194,6 +195,37 @@ def _match_roots(got, exp, tol):
         all(min(abs(g - e) for g in got) <= tol for e in exp)
 
 
+def _vieta_ok(got, p, stratum):
+    """the returned values are all the roots of p (coefficients, highest first): finite, as many as the degree (a triple root
+    may be reported once), each with a small residual, and with the elementary symmetric functions Vieta's relations give"""
+    q = list(p)
+    while q and q[0] == 0:
+        q = q[1:]
+    deg = len(q) - 1
+    got = [complex(x) for x in np.atleast_1d(np.asarray(got, dtype=complex))]
+    if not got or not all(np.isfinite(x) for x in got):
+        return "not finite"
+    if len(got) != deg:
+        if not (stratum == "poly/cubic-triple" and len(got) == 1):
+            return f"{len(got)} values for degree {deg}"
+        got = got * 3
+    rep = stratum in ("poly/cubic-triple", "poly/cubic-double", "poly/quadratic-double")
+    tol = 1e-4 if rep else 1e-7
+    scale = max(1.0, max(abs(x) for x in got))
+    for x in got:
+        val = sum(c * x ** (deg - k) for k, c in enumerate(q))
+        if abs(val) > tol * sum(abs(c) * scale ** (deg - k) for k, c in enumerate(q)):
+            return f"{x} is not a root"
+    es = [sum(got),
+          sum(got[i] * got[j] for i in range(deg) for j in range(i + 1, deg)),
+          got[0] * got[1] * got[2] if deg == 3 else 0]
+    for k in range(1, deg + 1):
+        want = (-1) ** k * q[k] / q[0]
+        if abs(es[k - 1] - want) > tol * scale ** k * 4:
+            return f"elementary symmetric function {k} is {es[k - 1]}, not {want}"
+    return None
+
+
 def _misc_job(job):
     kind, recs = job
     import_geometer()
@@ -222,6 +254,27 @@ def _misc_job(job):
                 if not _match_roots(got, r["roots"], tol):
                     out.append(dict(site=f"roots/{vn}", stratum=st, case={"p": pv}, expected={"roots": r["roots"]},
                                     observed=str(np.asarray(got).tolist())))
+    elif kind == "cubic":
+        for r in recs:
+            p = r["p"]
+            st = r["s"]
+            q = list(p)
+            while q[0] == 0:
+                q = q[1:]
+            variants = [("leading-zeros", p), ("float", [x * 0.5 for x in p]), ("negated", [-x for x in p])]
+            if len(q) < 4:
+                variants.append(("len=deg+1", q))
+            for vn, pv in variants:
+                try:
+                    with np.errstate(all="ignore"):
+                        got = roots(pv)
+                    why = _vieta_ok(got, pv, st)
+                except Exception as e:  # noqa: BLE001
+                    got, why = None, f"raised {type(e).__name__}: {e}"
+                if why:
+                    out.append(dict(site=f"roots/coefficient-box/{vn}", stratum=st, case={"p": pv},
+                                    expected="all roots (Vieta: -b/a, c/a, -d/a)",
+                                    observed=f"{why}; returned {None if got is None else np.asarray(got).tolist()}"))
     elif kind == "ismul":
         a = np.array([r["a"] for r in recs])
         b = np.array([r["b"] for r in recs])
@@ -368,8 +421,8 @@ def validate_trace(ctx: Ctx, events, name):
     return reports[-1]["bad"]
 
 
-TIER = {"quick": dict(tasks=["m2", "m3", "m4", "m5", "roots", "ismul", "hat", "mm"], n4=400, n5=120, nev=3000),
-        "thorough": dict(tasks=["m2", "m3", "m4", "m5", "roots", "ismul", "hat", "mm"], n4=6000, n5=1500, nev=30000)}
+TIER = {"quick": dict(tasks=["m2", "m3", "m4", "m5", "roots", "cubic", "ismul", "hat", "mm"], n4=400, n5=120, nev=3000),
+        "thorough": dict(tasks=["m2", "m3", "m4", "m5", "roots", "cubic", "ismul", "hat", "mm"], n4=6000, n5=1500, nev=30000)}
 
 
 def run(ctx: Ctx):
@@ -382,7 +435,7 @@ def run(ctx: Ctx):
         x = d["r"]
         x["_s"] = d["s"]
         recs.setdefault(x["t"], []).append(x)
-    for k in ("mat", "roots", "ismul", "hat", "mm"):
+    for k in ("mat", "roots", "cubic", "ismul", "hat", "mm"):
         if not recs.get(k):
             raise MachineryError(f"no {k} case dumped (vacuous)")
     rng = random.Random(ctx.seed)
@@ -411,7 +464,12 @@ def run(ctx: Ctx):
             byrank.setdefault(m["rank"], []).append(m)
         for rank, xs in byrank.items():
             jobs.append(("space", n, rank, xs[:300]))
-    for k in ("roots", "ismul", "hat", "mm"):
+    for need in ("poly/linear", "poly/quadratic-complex", "poly/quadratic-double", "poly/quadratic-real", "poly/cubic-triple",
+                 "poly/cubic-three-real", "poly/cubic-double", "poly/cubic-pure-positive", "poly/cubic-pure-negative",
+                 "poly/cubic-one-real"):
+        if not any(x["_s"] == need for x in recs["cubic"]):
+            raise MachineryError(f"stratum {need} never visited (vacuous)")
+    for k in ("roots", "cubic", "ismul", "hat", "mm"):
         xs = recs[k]
         for i in range(0, len(xs), 1500):
             jobs.append((k, xs[i:i + 1500]))
@@ -427,7 +485,8 @@ def run(ctx: Ctx):
     for k, xs in recs.items():
         for x in xs:
             ctx.count(x["_s"])
-            if x["_s"].startswith("singular") or x["_s"] in ("roots/double", "roots/triple", "roots/complex-pair",
+            if x["_s"].startswith("singular") or x["_s"] in ("roots/double", "roots/triple", "roots/complex-pair", "poly/cubic-triple", "poly/cubic-double",
+                                                            "poly/cubic-pure-positive", "poly/cubic-pure-negative", "poly/quadratic-double",
                                                             "ismul/zero", "ismul/multiple"):
                 ctx.nontrivial(str(x.get("M") or x.get("p") or (x.get("a"), x.get("b"))))
         nrep += len(xs)
